@@ -45,7 +45,10 @@ def names_job(job):
         if case['viaGit']:
             patch = os.fsencode('diff --git %s %s\nrename from %s\nrename to %s\n' % (old_t, new_t, old_t, new_t))
         else:
-            patch = os.fsencode('--- %s\n+++ %s\n' % (old_t, new_t)) + HUNK
+            # the shape of the hunk (modification, creation, deletion) has no say in whether a name may be used
+            shape = job[5] if len(job) > 5 else 'M'
+            body = {'M': HUNK, 'C': scen.create_hunk([0]), 'D': scen.delete_hunk([0])}[shape]
+            patch = os.fsencode('--- %s\n+++ %s\n' % (old_t, new_t)) + body
         ws.write(w, 'patches/p1.patch', patch)
         ws.write(w, 'patches/p2.patch', scen.render_fp({'kind': 'C', 'old': 'NULL', 'new': 'later', 'ren': False, 'hunks': [], 'to': [0], 'from': [], 'nmode': 'none'}))
         ws.write(w, 'series', b'p1.patch -p%d\np2.patch\n' % case['strip'])
@@ -94,7 +97,7 @@ def names_job(job):
                     probs.append(('outside-syscall', 'write-class system call on a path outside the working directory: %s(%s)' % (ev['call'], ev['args'][:150])))
                     break
         else:
-            rc, so, se = ws.push(w, ['-a', '-q', '--threads', threads])
+            rc, so, se = ws.push(w, ['-a', '-q', '--threads', threads] + (['--dry-run'] if len(job) > 6 and job[6] else []))
         outside_after = {p: v_ for p, v_ in ws.snapshot(sentinel, skip=(), meta=True).items() if not p.startswith('l1/l2/ws/') and p != 'l1/l2/ws/'}
         inside_after = ws.snapshot(w)
         # the directory entry of ws's parent may change mtime only if ws itself is created/removed: it is not
@@ -113,7 +116,7 @@ def names_job(job):
                 ap = inside_after.get('.pc/applied-patches')
                 if ap and ap[0]:
                     probs.append(('refused-but-recorded', 'patches recorded after a refused file patch: %r' % ap[0]))
-            elif not case['viaGit']:
+            elif not case['viaGit'] and (len(job) <= 5 or (job[5] == 'M' and not job[6])):
                 target = '/'.join(sp(c) for c in v['old'])
                 if rc != 0 or scen.cells_of(inside_after.get(target, (b'x',))[0]) != [1]:
                     probs.append(('safe-name-not-applied', 'names %r / %r with -p%d are harmless (target %s) but the push gave exit %d: %s'
@@ -136,6 +139,9 @@ def check(prop, tier):
         if tier == 'thorough':
             jobs += [(c, 3, False) for c in cases]
         jobs += [(c, 2, False, False, True) for i, c in enumerate(cases) if c['verdict']['refused'] and (tier == 'thorough' or i % 3 == 0)]
+        # creation- and deletion-shaped hunks under the same names; dry runs (a refused name is refused there too)
+        jobs += [(c, 1 + i % 2, False, False, False, 'CD'[i % 2], False) for i, c in enumerate(cases) if not c['viaGit'] and (tier == 'thorough' or i % 2 == 0)]
+        jobs += [(c, 1 + i % 2, False, False, False, 'MCD'[i % 3], True) for i, c in enumerate(cases) if tier == 'thorough' or i % 3 == 1]
         with Pool(12) as pool:
             outs = pool.map(names_job, jobs, chunksize=8)
         for job_, probs in zip(jobs, outs):
